@@ -269,6 +269,22 @@ func (a Bytes) M__iadd__(other Object) (Object, error) {
 	return NotImplemented, nil
 }
 
+// item in a is true if item is a byte value which is in a or is bytes
+// which are a subsequence of a
+func (a Bytes) M__contains__(item Object) (Object, error) {
+	if b, ok := item.(Bytes); ok {
+		return NewBool(bytes.Contains(a, b)), nil
+	}
+	i, err := IndexIntClip(item)
+	if err != nil {
+		return nil, ExceptionNewf(TypeError, "a bytes-like object is required, not '%s'", item.Type().Name)
+	}
+	if i < 0 || i >= 256 {
+		return nil, ExceptionNewf(ValueError, "byte must be in range(0, 256)")
+	}
+	return NewBool(bytes.IndexByte(a, byte(i)) >= 0), nil
+}
+
 func (a Bytes) Replace(args Tuple) (Object, error) {
 	var (
 		pyold Object = None
@@ -294,6 +310,7 @@ var (
 	_ richComparison = (Bytes)(nil)
 	_ I__add__       = (Bytes)(nil)
 	_ I__iadd__      = (Bytes)(nil)
+	_ I__contains__  = (Bytes)(nil)
 )
 
 func init() {
